@@ -1,3 +1,4 @@
+import Swat4.Lemmas.FactsExtra12
 import Swat4.Gen.Facts
 import Swat4.Model.QueueSys
 import Swat4.Properties.C10
